@@ -76,13 +76,20 @@ namespace BGV
 open G Bfs
 
 /-- **C11, findAllGeodesicsFromVertex**: one entry per vertex; entry `t` is what
-`findAllGeodesics(source, t)` returns, whenever that call returns normally for every `t`
-(it does on every reachable graph within the model's step budget, `C11_findAllGeodesics`) -/
+`findAllGeodesics(source, t)` returns (which returns normally for every `t`: `C11_findAllGeodesics`) -/
 theorem C11_findAllGeodesicsFromVertex {L : Type} (g : G L) (s : Nat) (hs : s < g.size)
-    (hwf : adjWF g.adj = true) (hlen : g.adj.length = g.size) (hn : g.size < MAX)
-    (hall : ∀ t, t < g.size → ∃ ps, findAllGeodesics g s t = .ok ps) :
+    (hwf : adjWF g.adj = true) (hlen : g.adj.length = g.size) (hn : g.size < MAX) :
     ∃ pss, findAllGeodesicsFromVertex g s = .ok pss ∧ pss.length = g.size ∧
       ∀ t, t < g.size → findAllGeodesics g s t = .ok (pss.getD t []) := by
+  have hall : ∀ t, t < g.size → ∃ ps, findAllGeodesics g s t = .ok ps := by
+    intro t ht
+    obtain ⟨c1, c2, c3⟩ := C11_findAllGeodesics g s t hs ht hwf hlen hn
+    by_cases hst : s = t
+    · exact ⟨_, c1 hst⟩
+    · by_cases hr : Reachable g.adj s t
+      · obtain ⟨Ls, hL, _⟩ := c3 hst hr
+        exact ⟨Ls, hL⟩
+      · exact ⟨_, c2 hst hr⟩
   have hfap : findAllVertexPredecessors g s = .ok (allPredRun g.adj s) := by
     simp [findAllVertexPredecessors, hs, hwf]
   have hWF : WF g.adj := (adjWF_iff g.adj).1 hwf
